@@ -624,6 +624,14 @@ impl TransactionalMemory {
                 .copy_from_slice(&header.to_bytes(true));
             storage.flush()?;
         }
+        // A file cut short inside the header must be rejected rather than read past its end
+        let file_len = storage.raw_file_len()?;
+        if file_len < DB_HEADER_SIZE as u64 {
+            return Err(StorageError::Corrupted(format!(
+                "File is shorter than the database header: file_len={file_len}"
+            ))
+            .into());
+        }
         let header_bytes = storage.read_direct(0, DB_HEADER_SIZE)?;
         let unrepaired =
             UnrepairedDatabaseHeader::from_bytes(&header_bytes, page_size.try_into().unwrap())?;
